@@ -86,14 +86,14 @@ mod verif_c19t {
         kani::cover!(!r && t.bounding_box().contains(p) && cross(a, b, p) == 0);
     }
 
-    //@harness prop=C05,C19 kind=bounded tier=quick class=P bound="vertices in 0..=3 x 0..=3 (edge fallback loops), probe point in -1..=4" timeout=900 fns=src/primitives/triangle/mod.rs::Triangle::contains
+    //@harness prop=C05,C19 kind=bounded tier=quick class=P bound="vertices in 0..=3 x 0..=3 (edge fallback loops), probe point in -1..=4" timeout=900 kani="--no-assertion-reach-checks" fns=src/primitives/triangle/mod.rs::Triangle::contains
     #[kani::proof]
     #[kani::unwind(6)]
     fn c05_triangle_contains() {
         check_contains(3);
     }
 
-    //@harness prop=C05,C19 kind=bounded tier=thorough class=P bound="vertices in 0..=7 x 0..=7 (edge fallback loops), probe point in -1..=8" timeout=3000 fns=src/primitives/triangle/mod.rs::Triangle::contains
+    //@harness prop=C05,C19 kind=bounded tier=thorough class=P bound="vertices in 0..=7 x 0..=7 (edge fallback loops), probe point in -1..=8" timeout=3000 kani="--no-assertion-reach-checks" fns=src/primitives/triangle/mod.rs::Triangle::contains
     #[kani::proof]
     #[kani::unwind(10)]
     fn c05_triangle_contains_thorough() {
